@@ -10,7 +10,9 @@ import os
 from ..common import hexs, unhexs
 from .. import grogen as G
 
-RULE = ("session: optional setters (title 0-80 printable chars, box 3-vector/diagonal/triclinic, position format "
+RULE = ("session: optional setters (title 0-80 printable chars, 35% of the valid sessions' titles with non-ASCII "
+        "characters of 2/3/4 UTF-8 bytes (Latin-1 and beyond: e.g. 'lip\u00eddica', '\u00c5', '\u6c34'), sent to the model as the "
+        "bytes of the interpreter's default text encoding, box 3-vector/diagonal/triclinic, position format "
         "(d+5,d) d=1..6, count declared or back-filled) in random order, 1..300 records (names 1-5 non-blank chars, "
         "numbers in [0,1e7] with the boundary stream 99998..100001, 1e5-1, 1e6, 1e7, values that fit the width incl. "
         "negative, -0.0, -0.0004, exact rounding ties m/2^(d+1) and their float neighbours, largest values that "
@@ -88,12 +90,20 @@ def generate(ctx):
             if d % 2:
                 ops.append(["n", 2])
             yield {"kind": "session", "valid": True, "ops": ops + [["w", r], ["w", r], ["x"]]}
+    # ---- non-ASCII titles (2-, 3-, 4-byte characters in UTF-8): count declared / back-filled, +- velocities
+    for t in G.NONASCII_TITLES:
+        if not G.encodable(t):
+            continue
+        for declared in (False, True):
+            r = [1, "RES", "A1", 1, 0.125, -0.0004, 1.5] + ([0.25, -0.5, 0.0625] if declared else [])
+            ops = [["c", t], ["b3", [1.0, 2.0, 3.0]]] + ([["n", 2]] if declared else [])
+            yield {"kind": "session", "valid": True, "ops": ops + [["w", r], ["w", r], ["x"]]}
     n_valid = ctx.n(1200, 20000)
     for i in range(n_valid):
         big = 300 if (i % 25 == 0) else 120
-        ops = G.gen_valid_session(rng, max_rec=big, boundary=(i % 5 == 0))
+        ops = G.gen_valid_session(rng, max_rec=big, boundary=(i % 5 == 0), nonascii_titles=True)
         if i % 40 == 0:
-            ops = G.gen_valid_session(rng, nrec=rng.randint(250, 300))
+            ops = G.gen_valid_session(rng, nrec=rng.randint(250, 300), nonascii_titles=True)
         yield {"kind": "session", "valid": True, "ops": ops}
     for i in range(ctx.n(500, 8000)):
         yield {"kind": "session", "valid": False, "ops": G.gen_invalid_session(rng)}
@@ -260,6 +270,14 @@ def _eval_session(ctx, case):
     for o in ops:
         if o[0] in ("f", "n", "c", "b3", "b9"):
             ctx.count("setter-" + o[0])
+    ctx.extra["text_encoding"] = {"open_default": G.TEXT_ENCODING, "byte_modelled": G.BYTE_MODELLED_ENCODING,
+                                  "note": "GroFile opens files in text mode without encoding=: titles are sent to the "
+                                          "model as their encoded bytes; all offsets (tell/seek) are byte offsets"}
+    title = next((o[1] for o in ops if o[0] == "c"), None)
+    if title is not None and not title.isascii():
+        declared = any(o[0] == "n" for o in ops)
+        ctx.count("title-nonascii:" + ("count-declared" if declared else "count-backfilled"))
+        ctx.count("title-nonascii-extra-bytes", len(G.text_bytes(title)) - len(title))
     ctx.count("size-le6" if len(recs) <= 6 else "size-le40" if len(recs) <= 40 else "size-le300")
     path = os.path.join(ctx.scratch, f"c13-{ctx.evaluations}.gro")
     errs, data, _ = G.run_session(path, ops)
